@@ -74,3 +74,12 @@ claim("C07",
       "them with exact rows and requires row i of the array path to equal the scalar path within 1e-12 (NaN pattern included, "
       "sign-free for eigen-solvers), plus one-sample constructors vs one-row batches with options honoured.",
       "TLA+ Vectorised catalogue + TLC enumeration + abstract-state determinism replay", "DESIGN.md section 5, C07")
+claim("C06",
+      "FilterLifecycle.tla with two instances (Create from an initial sample / Update / Batch / Drop) defines the abstract state "
+      "(cfg, consumed history); TLC checks OneRowPerSample, BatchEqualsStream and the action property Isolation over all "
+      "interleavings of 2 instances x 3 sample ids x histories <= 3 exhaustively and generates longer behaviours by -simulate; the "
+      "harness replays every behaviour on real objects of 22 streaming-capable configurations (Madgwick, Mahony, EKF incl. "
+      "magnetometer, UKF, AQUA incl. adaptive, ROLEQ, Fourati, AngularRate; caller-shared q0 / b0 / P arrays) with a second class "
+      "interleaved, twice, and enforces abstract-state determinism: equal abstract state => attitudes and carried state (P, b, "
+      "alpha) equal within 1e-12, repeats bit-identical.",
+      "TLA+ FilterLifecycle + TLC (exhaustive interleavings, simulate) + abstract-state determinism replay", "DESIGN.md section 5, C06")
